@@ -48,6 +48,11 @@ func (n Number) String() string {
 		return "-Infinity"
 	}
 
+	if n == 0 {
+		// both zeros convert to "0"
+		return "0"
+	}
+
 	return strconv.FormatFloat(float64(n), 'f', -1, 64)
 }
 
